@@ -191,9 +191,147 @@ Proof.
   destruct (Nat.ltb_spec (dcurr st) dl); [lia|]. destruct (Nat.ltb_spec (length buf) dl); [lia|]. cbn [orb].
   rewrite Em.
   destruct (Nat.eqb_spec (dcode st) 0); [contradiction|]. rewrite andb_false_r.
-  replace (dl + (dcurr st - dl)) with (dcurr st) by lia.
+  replace (dpos st + dlen st + (dcurr st - dl)) with (dcurr st) by (unfold dl; lia).
   destruct (Nat.ltb_spec (length buf) (dcurr st)); [lia|].
   rewrite firstn_all2 by (rewrite skipn_length; lia).
   destruct (Nat.eqb_spec (dcode st) 0); [contradiction|].
-  rewrite Em. reflexivity.
+  rewrite Em. cbv zeta.
+  destruct (Nat.eqb_spec (dcode st) 0); [contradiction|].
+  destruct (lr (dec_loop v false (skipn (dcurr st) buf) (dcode st) (dpos8 st) (dcurr st - dl) [] 0)); reflexivity.
+Qed.
+
+(* what one call on live input yields: the message, or MissingBuffer in a live state with the
+   delimiter still ahead -- and the latter only when the gap was short *)
+Definition live_result (v : variant) (st : dstate) (buf : list byte) (r : dres) (st' : dstate) (buf' : list byte) : Prop :=
+  let unread := skipn (dcurr st) buf in
+  (r = DMsg /\ exists pre tl, unread = pre ++ 0%N :: tl /\ nozero pre = true /\
+     dcurr st' = dcurr st + length pre + 1) \/
+  (r = DErr MissingBuffer /\ slive v st' buf' /\
+   exists j, dcurr st' = dcurr st + j /\ nozero (firstn j unread) = true /\
+     forall pre tl, unread = pre ++ 0%N :: tl -> nozero pre = true -> gapof st < length pre + 17).
+
+Lemma slive_after_mb v (buf buf' : list byte) curr curr' j code pos done mlen inp :
+  curr' = curr + j -> skipn curr' buf' = skipn curr' buf -> skipn curr buf = inp ->
+  wfd v (skipn j inp) code pos = true -> len_data v code <= pos -> 1 <= code ->
+  slive v (mkd code pos curr' done mlen None) buf'.
+Proof.
+  intros -> Hsk Hun Hw Hp Hc. unfold slive. cbn [dcode dcurr dpos8].
+  destruct (Nat.eqb_spec code 0); [lia|].
+  rewrite Hsk. rewrite <- skipn_skipn', Hun. split; [assumption|]. intros; lia.
+Qed.
+
+Theorem dec_call_live v F st buf frags res : cinv v F st buf -> slive v st buf ->
+  let '(r, st', buf') := dec_call_res v st buf frags res false in live_result v st buf r st' buf'.
+Proof.
+  intros Hc Hl. pose proof Hc as (G1 & G2 & Hm).
+  pose proof (dec_regular_honest v F st buf frags res Hc) as Hreg.
+  unfold dec_call_res. unfold slive in Hl.
+  destruct (Nat.eqb_spec (dcode st) 0) as [Hcode|Hcode].
+  - (* between messages *)
+    assert (Hmsg : dmsg st = Some (dlen st) \/ (dmsg st = None /\ dlen st = 0)).
+    { destruct (dmsg st) as [c|]; [destruct Hm as (-> & _ & _); left; reflexivity|].
+      right. split; [reflexivity|apply Hm]. }
+    destruct (skipn (dcurr st) buf) as [|c rest0] eqn:Hun; [discriminate|].
+    cbn [wfd0] in Hl. apply andb_prop in Hl. destruct Hl as [Hc0 Hw]. apply Bool.negb_true_iff in Hc0.
+    pose proof (bn_pos c Hc0) as Hbn.
+    destruct (dec_regular_fresh v st buf frags res c rest0 G1 G2 Hcode Hmsg Hun ltac:(lia)) as (post & Hp15 & Hpp & Heq).
+    rewrite Heq in *. unfold call_result in *.
+    set (proc := dcurr st - (dpos st + dlen st) - post + 1) in *.
+    pose proof (dec_loop_live v rest0 (bn c) 0 proc [] 1 Hw ltac:(intros; unfold proc; lia) Hbn) as Hlive.
+    pose proof (dec_loop_gap v false rest0 (bn c) 0 proc [] 1) as (added & Ho & Gc1 & Gc2 & Gc3). cbn [app] in Ho. subst added.
+    set (r := dec_loop v false rest0 (bn c) 0 proc [] 1) in *.
+    assert (Hlb : length buf = dcurr st + S (length rest0)).
+    { apply (f_equal (@length _)) in Hun. rewrite skipn_length in Hun. cbn [length] in Hun. lia. }
+    unfold live_post in Hlive. unfold live_result. rewrite Hun.
+    destruct (lr r) as [| |e|] eqn:Elr; try contradiction.
+    + (* message *)
+      assert (Hres : live_result v st buf DMsg
+                (mkd 0 0 (dpos st + dlen st + post + (0 + length (lout r)) + lproc r) (dpos st + dlen st + post)
+                     (0 + length (lout r)) (Some (0 + length (lout r))))
+                (splice buf (dpos st + dlen st + post + 0) (lout r))).
+      { left. split; [reflexivity|]. destruct Hlive as (pre & tl & -> & Hz & Hlc).
+        exists (c :: pre), tl. rewrite Hun. split; [reflexivity|].
+        split; [rewrite nozero_cons, Hc0, Hz; reflexivity|]. cbn [dcurr length]. unfold proc in *. lia. }
+      unfold live_result in Hres. rewrite Hun in Hres. destruct (inl v); exact Hres.
+    + destruct e; try contradiction.
+      * (* zero inside the last block: COBS/R *)
+        destruct Hlive as (Hi & Hlp & Hlc1 & pre & tl & -> & Hz & Hlc).
+        rewrite Hi. cbn [dcode dpos dlen dcurr].
+        destruct (Nat.eqb_spec (lcode r) 0); [lia|].
+        rewrite app_length in Hlb. cbn [length] in Hlb.
+        rewrite splice_length by (unfold proc in *; lia).
+        destruct (Nat.leb_spec (length buf) (dpos st + dlen st + post + (0 + length (lout r)))) as [Hno|_];
+          [unfold proc in *; lia|].
+        left. split; [reflexivity|]. exists (c :: pre), tl. split; [reflexivity|].
+        split; [rewrite nozero_cons, Hc0, Hz; reflexivity|]. cbn [dcurr length]. unfold proc in *. lia.
+      * (* out of gap *)
+        destruct Hlive as (Hw' & Hlp & Hlc1 & Hz).
+        assert (Hres : live_result v st buf (DErr MissingBuffer)
+                  (mkd (lcode r) (lpos r) (dpos st + dlen st + post + (0 + length (lout r)) + lproc r)
+                       (dpos st + dlen st + post) (0 + length (lout r)) None)
+                  (splice buf (dpos st + dlen st + post + 0) (lout r))).
+        { right. split; [reflexivity|].
+          assert (Hcur : dpos st + dlen st + post + (0 + length (lout r)) + lproc r = dcurr st + lcons r)
+            by (unfold proc in *; lia).
+          split.
+          - apply (slive_after_mb v buf _ (dcurr st) _ (lcons r) _ _ _ _ (c :: rest0)); try assumption.
+            + apply splice_skipn; unfold proc in *; lia.
+            + replace (lcons r) with (S (lcons r - 1)) by lia. cbn [skipn]. exact Hw'.
+          - exists (lcons r). cbn [dcurr]. split; [exact Hcur|]. rewrite Hun. split.
+            + replace (lcons r) with (S (lcons r - 1)) by lia. cbn [firstn]. rewrite nozero_cons, Hc0, Hz. reflexivity.
+            + intros pre tl Epre Hzp. destruct pre as [|c' pre']; [cbn [app] in Epre; inversion Epre; subst c; discriminate|].
+              cbn [app] in Epre. inversion Epre; subst c' rest0.
+              rewrite nozero_cons in Hzp. apply andb_prop in Hzp. destruct Hzp as [_ Hzp].
+              destruct (Nat.ltb_spec (gapof st) (length (c :: pre') + 17)); [assumption|]. exfalso.
+              apply (dec_loop_enough v pre' tl (bn c) 0 proc [] 1 Hzp); [|exact Elr].
+              unfold gapof, proc in *. cbn [length] in *. lia. }
+        unfold live_result in Hres. rewrite Hun in Hres. destruct (inl v); exact Hres.
+  - (* resumed inside a message *)
+    destruct (dmsg st) as [c|] eqn:Em; [destruct Hm as (_ & Hz & _); contradiction|].
+    destruct (Nat.eqb_spec (dcode st) 0); [contradiction|]. clear Hm.
+    destruct Hl as [Hw Hgap].
+    rewrite (dec_regular_resumed v st buf frags res G1 G2 Hcode Em) in *. lazy zeta in *.
+    set (inp := skipn (dcurr st) buf) in *.
+    assert (Hc1 : 1 <= dcode st) by lia.
+    pose proof (dec_loop_live v inp (dcode st) (dpos8 st) (gapof st) [] 0 Hw Hgap Hc1) as Hlive.
+    pose proof (dec_loop_gap v false inp (dcode st) (dpos8 st) (gapof st) [] 0) as (added & Ho & Gc1 & Gc2 & Gc3).
+    cbn [app] in Ho. subst added.
+    set (r := dec_loop v false inp (dcode st) (dpos8 st) (gapof st) [] 0) in *.
+    assert (Hlb : length buf = dcurr st + length inp) by (unfold inp; rewrite skipn_length; lia).
+    unfold live_post in Hlive. unfold live_result. fold inp. rewrite Nat.sub_0_r in *. cbn [Nat.add] in Hlive.
+    destruct (lr r) as [| |e|] eqn:Elr; try contradiction.
+    + assert (Hres : live_result v st buf DMsg
+                (mkd 0 0 (dpos st + (dlen st + length (lout r)) + lproc r) (dpos st)
+                     (dlen st + length (lout r)) (Some (dlen st + length (lout r))))
+                (splice buf (dpos st + dlen st) (lout r))).
+      { left. split; [reflexivity|]. destruct Hlive as (pre & tl & Ei & Hz & Hlc). fold inp.
+        exists pre, tl. split; [exact Ei|]. split; [exact Hz|]. cbn [dcurr]. unfold gapof in *. lia. }
+      unfold live_result in Hres. fold inp in Hres. destruct (inl v); exact Hres.
+    + destruct e; try contradiction.
+      * destruct Hlive as (Hi & Hlp & Hlc1 & pre & tl & Ei & Hz & Hlc).
+        rewrite Hi. cbn [dcode dpos dlen dcurr].
+        destruct (Nat.eqb_spec (lcode r) 0); [lia|].
+        rewrite Ei, app_length in Hlb. cbn [length] in Hlb.
+        rewrite splice_length by (unfold gapof in *; lia).
+        destruct (Nat.leb_spec (length buf) (dpos st + (dlen st + length (lout r)))) as [Hno|_];
+          [unfold gapof in *; lia|].
+        left. split; [reflexivity|]. exists pre, tl. split; [exact Ei|]. split; [exact Hz|].
+        cbn [dcurr]. unfold gapof in *. lia.
+      * destruct Hlive as (Hw' & Hlp & Hlc1 & Hz).
+        assert (Hres : live_result v st buf (DErr MissingBuffer)
+                  (mkd (lcode r) (lpos r) (dpos st + (dlen st + length (lout r)) + lproc r) (dpos st)
+                       (dlen st + length (lout r)) None)
+                  (splice buf (dpos st + dlen st) (lout r))).
+        { right. split; [reflexivity|].
+          assert (Hcur : dpos st + (dlen st + length (lout r)) + lproc r = dcurr st + lcons r)
+            by (unfold gapof in *; lia).
+          split.
+          - apply (slive_after_mb v buf _ (dcurr st) _ (lcons r) _ _ _ _ inp); try assumption; try reflexivity.
+            apply splice_skipn; unfold gapof in *; lia.
+          - exists (lcons r). cbn [dcurr]. split; [exact Hcur|]. fold inp. split; [exact Hz|].
+            intros pre tl Epre Hzp.
+            destruct (Nat.ltb_spec (gapof st) (length pre + 17)); [assumption|]. exfalso.
+            unfold r in Elr. rewrite Epre in Elr.
+            apply (dec_loop_enough v pre tl (dcode st) (dpos8 st) (gapof st) [] 0 Hzp); [lia|exact Elr]. }
+        unfold live_result in Hres. fold inp in Hres. destruct (inl v); exact Hres.
 Qed.
